@@ -657,8 +657,23 @@ def sum_form(ctx, func):
                     func.body.index(inits[0]) < func.body.index(lp) and \
                     not any(isinstance(x, (ast.Break, ast.Continue, ast.Return))
                             for b in lp.body for x in ast.walk(b)):
-                return dict(start=inits[0].value, iter=lp.iter, target=lp.target,
-                            elt=accs[0].value, node=accs[0])
+                it_, tg_, el_ = lp.iter, lp.target, accs[0].value
+                if isinstance(it_, (ast.GeneratorExp, ast.ListComp)) and \
+                        len(it_.generators) == 1 and not it_.generators[0].ifs and \
+                        isinstance(tg_, ast.Name):
+                    # looping over `(E for x in IT)` is looping over IT with E
+                    from .symcase import clone
+                    inner, var = it_, tg_.id
+
+                    class Sub(ast.NodeTransformer):
+                        def visit_Name(self, n):
+                            if n.id == var and isinstance(n.ctx, ast.Load):
+                                return clone(inner.elt)
+                            return n
+                    el_ = Sub().visit(clone(el_))
+                    it_, tg_ = inner.generators[0].iter, inner.generators[0].target
+                return dict(start=inits[0].value, iter=it_, target=tg_,
+                            elt=el_, node=accs[0])
             return None
         if not accs and len(inits) == 1:
             v = inits[0].value
